@@ -64,6 +64,14 @@ func TestRace(t *testing.T) {
 		}
 		fh.Close()
 	}
+	// spellings the repository's own cases do not use (whatever the translator memoises about property names
+	// or kinds must be safe to memoise from several goroutines)
+	queries = append([]string{
+		"match (s {ObjectID: 'S-1'})-[:EdgeKind1*1..]->(d {Name: 'x', System_Tags: 'admin_tier_0'}) return d",
+		"match (n) where n.OBJECTID = 'S-1' and n.NAME = 'a' return n",
+		"match (a {objectId: 'S-2'})-[r]->(b {nAmE: 'q'}) return a, r, b",
+		"match (s {Objectid: 'S-3'})-[:EdgeKind2*0..]->(m)-[:EdgeKind1]->(d {SYSTEM_TAGS: 'x'}) return s, d",
+	}, queries...)
 	t0 := time.Now()
 	translations, mismatches, n := 0, 0, 0
 	for qi := 0; time.Since(t0).Seconds() < budget && len(queries) > 0; qi++ {
